@@ -300,6 +300,12 @@ func (gb *gcpBalancer) UpdateClientConnState(ccs balancer.ClientConnState) error
 		scRef.subConn.UpdateAddresses(addrs)
 		scRef.subConn.Connect()
 	}
+	// Replacement SubConns of in-flight refreshes will take over pool slots, keep them
+	// on the latest addresses too.
+	for sc := range gb.refreshingScRefs {
+		sc.UpdateAddresses(addrs)
+		sc.Connect()
+	}
 
 	return nil
 }
